@@ -145,7 +145,7 @@ type World struct {
 	TraceFull bool // keep the full event log
 
 	rng       RNG
-	decisions []Decision // explicit mode input
+	decisions []Decision      // explicit mode input
 	decIdx    [nKinds][]int32 // per kind: key -> index+1 of first decision in sorted order (explicit mode lookup helper)
 	nth       [nKinds][]int32
 
